@@ -36,7 +36,7 @@ func (h logsResourceHandler) ResolveFilter(_ common.ResourceQuery[any], operator
 	case "type":
 		return fmt.Sprintf("type %s ?", common.ConvertOperatorToSQL(operator)), []any{value}, nil
 	default:
-		return "", nil, fmt.Errorf("unknown key '%s' when building query", property)
+		return "", nil, common.NewErrInvalidQuery("unknown key '%s' when building query", property)
 	}
 }
 
